@@ -16,7 +16,7 @@ class C15(diffprop.Spec):
                   "consistent with what they write and do not use bodyless statuses (1xx, 204, 304) or HEAD; Expect: 100-continue and trailers are outside the model.")
     rule = ("per connection: 1-4 requests (GET/POST/PUT/DELETE, HTTP/1.1 or 1.0, Connection close / keep-alive / absent, body none / Content-Length 0-4097 bytes that look like requests / "
             "chunked) pipelined and fragmented at random; per request a handler program: reads all / none / k bytes of the body, sets 0-3 headers, Content-Length or chunked or neither, "
-            "optional WriteHeader(200/201/202/404/500), 0-3 writes of 0/1/14/100/2047/2048/2049/5000 bytes, Flush before the header, between writes, twice at the end")
+            "optional WriteHeader(200/201/202/404/500), 0-3 writes of 0/1/14/100/2047/2048/2049/5000 bytes, Flush before the header, between writes, twice at the end; 1/25 of the bodies have 65536 / 262144 / 262145 / 300000 bytes")
     assumptions = ("explicit Content-Length equals the number of body bytes written", "no bodyless status codes, no HEAD")
     modelled_not_verified = ("net/http.ReadRequest", "net/http.ReadResponse (validated against the model's parser on every generated wire)", "bufio.Writer", "httputil chunked writer")
 
